@@ -107,6 +107,11 @@ def run_check(pid, tier, seed, replay=None):
         pok, nobl, ndis, pdetails, plog = lib.check_props(pid, flocq_ok=getattr(mod, 'FLOCQ_THEOREMS', ()))
         if not pok:
             broken.append(('proof', '; '.join(pdetails) or 'proof obligations failed'))
+        if pok and tier == 'thorough':
+            okc, outc = lib.coqchk(pid)
+            notes.append(outc)
+            if not okc:
+                broken.append(('proof', outc))
         okd, outd = lib.build_driver()
         if not okd:
             broken.append(('model', 'extracted model failed to build: ' + outd[-300:]))
